@@ -4,22 +4,23 @@ import MpsVerif.Core.Sys
 namespace Mux
 
 inductive Step (c : Cfg) : State → Act → State → Prop where
-  | submit {s x id} : Fresh s id →
+  | submit {s x id} : Fresh s id → s.pending.length < c.pendCap →
       Step c s (.submit x id)
         { s with reqs := s.reqs ++ [⟨x, id⟩], pending := s.pending ++ [(x, s.reqs.length)],
                  stage := upd s.stage s.reqs.length .pending }
-  | ssubmit {s x id} : Fresh s id →
+  | ssubmit {s x id} : Fresh s id → s.pending.length < c.pendCap →
       Step c s (.ssubmit x id)
         { s with reqs := s.reqs ++ [⟨x, id⟩], pending := s.pending ++ [(x, s.reqs.length)],
                  tasks := s.tasks ++ [(x, s.reqs.length)], sin := s.sin ++ [x],
                  stage := upd s.stage s.reqs.length .pending }
   | send {s ci x k rest cn r} : s.pending = (x, k) :: rest → s.conns[ci]? = some cn → s.reqs[k]? = some r →
+      cn.wire.length < c.wireCap →
       Step c s (.send ci)
         { s with pending := rest,
                  conns := s.conns.set ci { cn with wire := cn.wire ++ [⟨r.id, x, k⟩] },
                  active := insert s.active r.id k,
                  stage := upd s.stage k (.wire ci) }
-  | srvRecv {s ci cn m rest} : s.conns[ci]? = some cn → cn.wire = m :: rest →
+  | srvRecv {s ci cn m rest} : s.conns[ci]? = some cn → cn.wire = m :: rest → cn.srvq.length < c.srvCap →
       Step c s (.srvRecv ci)
         { s with conns := s.conns.set ci { cn with wire := rest, srvq := cn.srvq ++ [⟨m.rid, m.data, false, m.gk⟩] },
                  stage := upd s.stage m.gk (.srv ci) }
@@ -27,6 +28,7 @@ inductive Step (c : Cfg) : State → Act → State → Prop where
       Step c s (.finish ci j)
         { s with conns := s.conns.set ci { cn with srvq := cn.srvq.set j { t with done := true } } }
   | respond {s ci cn t rest} : s.conns[ci]? = some cn → cn.srvq = t :: rest → t.done = true →
+      cn.back.length < c.backCap →
       Step c s (.respond ci)
         { s with conns := s.conns.set ci { cn with srvq := rest, back := cn.back ++ [⟨t.rid, c.handler t.data, t.gk⟩] },
                  stage := upd s.stage t.gk (.back ci) }
@@ -41,20 +43,26 @@ inductive Step (c : Cfg) : State → Act → State → Prop where
 
 theorem step_sound (c : Cfg) (s s' : State) (a : Act) (h : step c s a = some s') : Step c s a s' := by
   cases a <;> simp only [step] at h
-  case submit x id => split at h <;> simp at h; subst h; rename_i hf; exact .submit hf
-  case ssubmit x id => split at h <;> simp at h; subst h; rename_i hf; exact .ssubmit hf
+  case submit x id => split at h <;> simp at h; subst h; rename_i hf; exact .submit hf.1 hf.2
+  case ssubmit x id => split at h <;> simp at h; subst h; rename_i hf; exact .ssubmit hf.1 hf.2
   case send ci =>
     split at h
     · rename_i x k rest cn hp hc
       split at h
-      · rename_i r hr; simp at h; subst h; exact .send hp hc hr
+      · rename_i r hr
+        split at h
+        · rename_i hcap; simp at h; subst h; exact .send hp hc hr hcap
+        · simp at h
       · simp at h
     · simp at h
   case srvRecv ci =>
     split at h
     · rename_i cn hc
       split at h
-      · rename_i m rest hw; simp at h; subst h; exact .srvRecv hc hw
+      · rename_i m rest hw
+        split at h
+        · rename_i hcap; simp at h; subst h; exact .srvRecv hc hw hcap
+        · simp at h
       · simp at h
     · simp at h
   case finish ci j =>
@@ -73,7 +81,7 @@ theorem step_sound (c : Cfg) (s s' : State) (a : Act) (h : step c s a = some s')
       split at h
       · rename_i t rest hq
         split at h
-        · rename_i hd; simp at h; subst h; exact .respond hc hq hd
+        · rename_i hd; simp at h; subst h; exact .respond hc hq hd.1 hd.2
         · simp at h
       · simp at h
     · simp at h
